@@ -15,7 +15,7 @@ static Fields gen(Tape &t) {
   int src = 0;
   if (t.chance(1, 5)) {
     u32s n = g_noise(t, false);
-    if (all_narrow(n) && uriref_matcher().run(n).accepted) { for (char32_t c : n) s += (char)c; src = 1; }
+    if (all_narrow(n) && (uriref_matcher().run(n).accepted || t.coin())) { for (char32_t c : n) s += (char)c; src = 1; }  // half of the rejected texts are kept: they must not parse
     else s = g_uri(t);
   } else s = g_uri(t);
   f.set("text", s);
@@ -154,7 +154,15 @@ static Verdict lifted_variants(const std::string &text) {
 }
 
 static Verdict check_text(const std::string &text) {
-  if (!uriref_matcher().matches(text)) return Verdict::discard();
+  if (!uriref_matcher().matches(text)) {
+    // "On success ... the substrings the RFC 3986 grammar assigns": a text outside the grammar has none, so it must not succeed
+    if (text.find('\0') != std::string::npos) return Verdict::discard();
+    Parsed<Api<char>> pa; parse_via<Api<char>>(pa, PE_SINGLE_EX, widen<char>(text));
+    Parsed<Api<wchar_t>> pw; parse_via<Api<wchar_t>>(pw, PE_SINGLE_EX, widen<wchar_t>(text));
+    if (pa.rc == 0 || pw.rc == 0) return Verdict::fail("'" + esc(text) + "' is not a URI reference (RFC 3986 Appendix A) and parses successfully: the grammar assigns it no components");
+    stats().hit("outside_the_grammar_and_refused");
+    return Verdict::discard();
+  }
   MUri m = m_split(text);
   Verdict v = check_type<Api<char>>(text, m);
   if (v.kind != Verdict::PASS) return v;
